@@ -193,6 +193,56 @@ def cmd_fullsuite(name):
     return 0
 
 
+def cmd_retest(name):
+    """Re-run, alone, the tests that failed in a (loaded-machine) fullsuite
+    run; what still fails is a real failure."""
+    meta = load_meta(name)
+    fs = meta.get('full_suite_with_change') or {}
+    bad = fs.get('stable_pass_failures') or []
+    if not bad:
+        print(name, 'nothing to re-test')
+        return 0
+    wt = worktree(name)
+    try:
+        ap = sh(f'git -C {wt} apply {os.path.join(SEED, name, "patch.diff")}')
+        if ap.returncode:
+            print('PATCH DOES NOT APPLY')
+            return 2
+        ids = []
+        for key in bad:
+            cls, _, test = key.partition('::')
+            parts = cls.split('.')
+            # tests.integration.test_x[.Class] -> tests/integration/test_x.py
+            path = None
+            for k in range(len(parts), 0, -1):
+                cand = os.path.join(wt, *parts[:k]) + '.py'
+                if os.path.exists(cand):
+                    path = '/'.join(parts[:k]) + '.py'
+                    rest = parts[k:]
+                    break
+            if path is None:
+                continue
+            if path.startswith('cylc/'):
+                ids.append(path)          # doctest: run the module's doctests
+            else:
+                ids.append('::'.join([path] + rest + [test]))
+        ids = sorted(set(ids))
+        r = sh(f'cd {wt} && PYTHONPATH={wt} {PY} -m pytest -q -p no:cacheprovider '
+               f'--timeout=900 --doctest-modules ' + ' '.join(
+                   "'" + i + "'" for i in ids), env=dict(os.environ))
+        failed = [l for l in r.stdout.splitlines()
+                  if l.startswith(('FAILED', 'ERROR'))]
+        fs['rerun_alone'] = {
+            'tests': len(ids), 'summary': (r.stdout.strip().splitlines() or [''])[-1],
+            'still_failing': [f.replace(wt, '') for f in failed][:20]}
+        meta['full_suite_with_change'] = fs
+        save_meta(name, meta)
+        print(name, fs['rerun_alone'])
+    finally:
+        drop(wt)
+    return 0
+
+
 def main():
     a = sys.argv[1:]
     if a[0] == 'import':
@@ -204,6 +254,8 @@ def main():
         tier = a[a.index('--tier') + 1] if '--tier' in a else 'quick'
         rest = [x for x in a[2:] if not x.startswith('--') and x != tier]
         return cmd_check(a[1], rest, tier)
+    if a[0] == 'retest':
+        return cmd_retest(a[1])
     if a[0] == 'fullsuite':
         return cmd_fullsuite(a[1])
     sys.exit(__doc__)
